@@ -470,6 +470,21 @@ def sampler_slots(mod, session):
     return s
 
 
+def unencodable_targets(m, p=None):
+    """(object, attribute, value): plain attributes and a value each accepts on assignment but that does not
+    fit the attribute's binary slot, so that the next save is refused by the packer."""
+    targets = [(m, "scale", -1), (m, "mod_finetune", 2 ** 40), (m, "midi_out_bank", 2 ** 40)]
+    if p is not None:
+        targets += [(m, "x", 2 ** 40), (m, "y", -(2 ** 40)), (p, "initial_bpm", -1), (p, "global_volume", 2 ** 33)]
+    if isinstance(m, Sampler):
+        for smp in m.samples:
+            if smp is not None:
+                targets += [(smp, "finetune", 1000), (smp, "relative_note", -1000), (smp, "volume", -5)] * 2
+                break
+        targets += [(m.volume_envelope, "sustain_point", 70000), (m.panning_envelope, "loop_end_point", 70000)] * 2
+    return targets
+
+
 def signed_targets(mod, in_project=True):
     """(label, setter(y)) for every signed scalar of `mod`: common fields, controllers whose plain
     range reaches below zero, Sampler envelope point y values and sample tuning.  Used by the `neg`
@@ -844,13 +859,7 @@ class Session:
                 # a plain attribute takes a value that is accepted on assignment but does not fit its binary
                 # slot; the save of the top-level container is refused; the caller puts the old value back
                 top = self.root if self.root is not None else p
-                targets = [(m, "x", 2 ** 40), (m, "y", -(2 ** 40)), (p, "initial_bpm", -1), (p, "global_volume", 2 ** 33), (m, "scale", -1)]
-                if isinstance(m, Sampler):
-                    for smp in m.samples:
-                        if smp is not None:
-                            targets += [(smp, "finetune", 1000), (smp, "relative_note", -1000), (smp, "volume", -5)] * 2
-                            break
-                    targets += [(m.volume_envelope, "sustain_point", 70000)]
+                targets = unencodable_targets(m, p)
                 obj, attr, val = targets[(v >> 4) % len(targets)]
                 if not hasattr(obj, attr):
                     return "bad:skip"
